@@ -372,6 +372,8 @@ func Process12(in Row) (Row, string) {
 		return ProcessSU(in)
 	case "msg":
 		return ProcessMsg(in)
+	case "bhist":
+		return ProcessBHist(in)
 	}
 	panic(fmt.Sprintf("wire: unknown C12 row kind %q", S(in["k"])))
 }
@@ -748,8 +750,10 @@ func Rand12(r *rand.Rand) Row {
 		return RandStr(r)
 	case x < 70:
 		return RandXfer(r)
-	case x < 82:
+	case x < 76:
 		return RandBuild(r)
+	case x < 83:
+		return RandBHist(r)
 	case x < 89:
 		return RandDeploy(r)
 	case x < 96:
